@@ -88,6 +88,46 @@ def run_prelude(kind):
                     sub_.attributes()
                 except Exception:
                     pass
+    elif kind == 'traffic':
+        # one frame of every class x every combination of its flag bits, sent and received,
+        # plus content headers and a few refused inputs - then the catalogue is checked
+        import itertools
+        import warnings
+        warnings.simplefilter('ignore')
+        from pamqp import frame, header
+        from pbt import spec_table, strategies as S
+        for m in spec_table.METHODS:
+            cls = getattr(getattr(commands, m.pyclass), m.pyname)
+            bits = [f.name for f in m.fields if f.type == 'bit' and
+                    (m.dotted, f.name) not in S._CONSTRAINED]
+            for combo in itertools.product([False, True], repeat=len(bits)):
+                args = {}
+                for f in m.fields:
+                    c = S._CONSTRAINED.get((m.dotted, f.name))
+                    args[f.name] = c[1] if c and c[0] == 'fixed' else {
+                        'octet': 1, 'short': 200, 'long': 1, 'longlong': 1,
+                        'bit': False, 'shortstr': 'a', 'longstr': 'b',
+                        'table': {'k': 1}}[f.type]
+                args.update(dict(zip(bits, combo)))
+                try:
+                    obj = cls(**args)
+                    data = frame.marshal(obj, 1)
+                    frame.unmarshal(data)
+                    dict(obj), list(obj), len(obj)
+                except Exception:
+                    pass
+        for code in list(exceptions.CLASS_MAPPING) + [200, 0, 999]:
+            for cls in (commands.Connection.Close, commands.Channel.Close):
+                try:
+                    frame.unmarshal(frame.marshal(cls(code, 'text', 0, 0), 1))
+                except Exception:
+                    pass
+        try:
+            frame.unmarshal(frame.marshal(header.ContentHeader(
+                0, 5, commands.Basic.Properties(app_id='a', headers={'k': 1})), 1))
+            frame.unmarshal(b'\x01\x00\x01\x00\x00\x00\x02\x00\x32\xce')
+        except Exception:
+            pass
     elif kind == 'partial':
         # first use of every class is an *abandoned* iteration / a peek
         import warnings
@@ -106,8 +146,27 @@ def run_prelude(kind):
         # an application exploring the public helper functions of the modules with many
         # distinct arguments (whatever functions the tree under test offers)
         import inspect
-        from pamqp import constants
-        for mod in (exceptions, constants):
+        import warnings
+        warnings.simplefilter('ignore')
+        from pamqp import (body, constants, decode, encode, frame, header,
+                           heartbeat)
+        samples = list(range(0, 1200)) + ['x', None, -1, 2 ** 40]
+        for code in list(exceptions.CLASS_MAPPING) + [200, 0, 999]:
+            for cls, extra in ((commands.Connection.Close, (0, 0)),
+                               (commands.Channel.Close, (0, 0)),
+                               (commands.Basic.Return, ('e', 'r'))):
+                try:
+                    samples.append(cls(code, 'text', *extra))
+                except Exception:
+                    pass
+        for cls in commands.INDEX_MAPPING.values():
+            try:
+                samples.append(cls())
+            except Exception:
+                pass
+        samples += [header.ContentHeader(), heartbeat.Heartbeat(),
+                    body.ContentBody(b'x'), header.ProtocolHeader()]
+        for mod in (exceptions, constants, frame, base, header, body, heartbeat):
             for name, fn in sorted(vars(mod).items()):
                 if name.startswith('_') or not inspect.isfunction(fn):
                     continue
@@ -119,7 +178,9 @@ def run_prelude(kind):
                     continue
                 if len(params) != 1:
                     continue
-                for arg in list(range(0, 1200)) + ['x', None, -1, 2 ** 40]:
+                if mod is frame and name in ('unmarshal', 'frame_parts', 'marshal'):
+                    continue
+                for arg in samples:
                     try:
                         fn(arg)
                     except Exception:
